@@ -32,6 +32,7 @@ inline LoggedRun logged_run(const Program & p, const char * path) {
 // (thorough: every 8-byte multiple).
 inline std::vector<CrashPoint> crash_points(const std::vector<vfs::Op> & log, const std::string & path, size_t stride, size_t phase, bool thorough) {
     std::vector<CrashPoint> pts;
+    std::vector<int64_t> recent_hdr;   // offsets of the last chunk headers appended (incl. the one whose payload is being written)
     size_t n = 0;
     int marks = -1;       // index of the last completed op marker seen (-1 = open completed is marker (size_t)-1)
     int completed = 0;    // number of program ops completed
@@ -40,6 +41,7 @@ inline std::vector<CrashPoint> crash_points(const std::vector<vfs::Op> & log, co
         const vfs::Op & o = log[i];
         if (o.kind == vfs::OP_MARK) { if (o.off == -1) open_done = true; else completed = (int) o.off + 1; marks = (int) o.off; continue; }
         if (o.path != path || (o.kind != vfs::OP_WRITE && o.kind != vfs::OP_TRUNCATE)) continue;
+        if (o.kind == vfs::OP_WRITE && o.data.size() == 32 && o.off >= o.size_before) { recent_hdr.push_back(o.off); if (recent_hdr.size() > 3) recent_hdr.erase(recent_hdr.begin()); }
         if (stride && n % stride == phase % stride) {
             CrashPoint cp; cp.k = n; cp.b = 0; cp.op_len = o.data.size();
             cp.inplace = o.kind == vfs::OP_WRITE && o.off + (int64_t) o.data.size() <= o.size_before;
@@ -54,6 +56,20 @@ inline std::vector<CrashPoint> crash_points(const std::vector<vfs::Op> & log, co
                 else {
                     bs = {1, len / 2, len - 1, 8, 16, (len - 1) & ~(size_t) 7, ((len - 1) & ~(size_t) 7) - 8};
                     if (thorough) for (size_t b = 24; b + 8 < len; b += 8) bs.push_back(b);
+                    // prefixes that put the end of the image at a distance of about 1 KiB (+ multiples of 1000 bytes) from the start
+                    // of one of the last chunks: the reader finds the last valid chunk by scanning backwards in 1 KiB windows, so
+                    // these are the positions where a chunk header sits at / next to a window edge
+                    // (window edges at multiples of 1024 bytes from the end; the windows overlap by 24 bytes, i.e. advance by 1000)
+                    for (int64_t S : recent_hdr) {
+                        for (int64_t j = 0; j < 6; ++j) for (int64_t dl = -8; dl <= 8; dl += 8) {
+                            int64_t b = S + 1024 + 1000 * j + dl - o.off;
+                            if (b > 0 && b < (int64_t) len) bs.push_back((size_t) b);
+                        }
+                        for (int64_t j = 1; j <= 5; ++j) for (int64_t dl = -8; dl <= 32; dl += 8) {
+                            int64_t b = S + 1024 * j + dl - o.off;
+                            if (b > 0 && b < (int64_t) len) bs.push_back((size_t) b);
+                        }
+                    }
                 }
                 std::sort(bs.begin(), bs.end());
                 bs.erase(std::unique(bs.begin(), bs.end()), bs.end());
